@@ -29,6 +29,10 @@ type scriptServer struct {
 	sdp        []byte
 	wg         sync.WaitGroup
 	notes      []string
+	setupMode  string // answer to a UDP SETUP: "461" | "tcp-answer" | "udp-silent"
+	redirect   bool   // the first DESCRIBE is redirected
+	redirected bool
+	udp        []net.PacketConn
 }
 
 func burstItem(kind string, seq uint16) []byte {
@@ -95,6 +99,7 @@ func (s *scriptServer) serve(c net.Conn) {
 		}
 	}()
 	nreq := 0
+	tcpSetup := false
 	var seq uint16 = 100
 	for {
 		b, err := br.Peek(1)
@@ -148,19 +153,50 @@ func (s *scriptServer) serve(c net.Conn) {
 		case "OPTIONS":
 			res.WriteString("Public: DESCRIBE, ANNOUNCE, SETUP, PLAY, RECORD, PAUSE, GET_PARAMETER, TEARDOWN\r\n")
 		case "DESCRIBE":
+			s.mu.Lock()
+			redir := s.redirect && !s.redirected
+			if redir {
+				s.redirected = true
+			}
+			s.mu.Unlock()
+			if redir {
+				res.Reset()
+				fmt.Fprintf(&res, "RTSP/1.0 302 Found\r\nCSeq: %s\r\nLocation: rtsp://%s/moved\r\n", hd["cseq"], s.ln.Addr().String())
+				break
+			}
 			fmt.Fprintf(&res, "Content-Base: %s/\r\nContent-Type: application/sdp\r\n", url)
 			body = s.sdp
 		case "SETUP":
 			il := "0-1"
+			cport := ""
 			for _, p := range strings.Split(hd["transport"], ";") {
 				if strings.HasPrefix(p, "interleaved=") {
 					il = strings.TrimPrefix(p, "interleaved=")
 				}
+				if strings.HasPrefix(p, "client_port=") {
+					cport = strings.TrimPrefix(p, "client_port=")
+				}
 			}
-			fmt.Fprintf(&res, "Transport: RTP/AVP/TCP;unicast;interleaved=%s\r\nSession: 12345678\r\n", il)
+			wantsUDP := !strings.Contains(hd["transport"], "/TCP")
+			switch {
+			case wantsUDP && s.setupMode == "461":
+				res.Reset()
+				fmt.Fprintf(&res, "RTSP/1.0 461 Unsupported Transport\r\nCSeq: %s\r\n", hd["cseq"])
+			case wantsUDP && s.setupMode == "udp-silent":
+				// UDP accepted, but no datagram will ever be sent
+				sp := 0
+				if a, b := s.udpPair(); a != nil {
+					_ = b
+					sp = a.LocalAddr().(*net.UDPAddr).Port
+				}
+				fmt.Fprintf(&res, "Transport: RTP/AVP;unicast;client_port=%s;server_port=%d-%d\r\nSession: 12345678\r\n", cport, sp, sp+1)
+			default:
+				tcpSetup = true
+				fmt.Fprintf(&res, "Transport: RTP/AVP/TCP;unicast;interleaved=%s\r\nSession: 12345678\r\n", il)
+			}
 		case "PLAY":
 			res.WriteString("Session: 12345678\r\n")
-			startFrames = true
+			startFrames = tcpSetup
 		case "PAUSE", "TEARDOWN":
 			res.WriteString("Session: 12345678\r\n")
 			stop = true
@@ -220,7 +256,34 @@ func (s *scriptServer) serve(c net.Conn) {
 	}
 }
 
+// udpPair binds an even/odd UDP port pair (nobody reads from it).
+func (s *scriptServer) udpPair() (net.PacketConn, net.PacketConn) {
+	for try := 0; try < 50; try++ {
+		p, err := freeUDPPair()
+		if err != nil {
+			return nil, nil
+		}
+		a, err := net.ListenPacket("udp", fmt.Sprintf("127.0.0.1:%d", p))
+		if err != nil {
+			continue
+		}
+		b, err := net.ListenPacket("udp", fmt.Sprintf("127.0.0.1:%d", p+1))
+		if err != nil {
+			a.Close()
+			continue
+		}
+		s.mu.Lock()
+		s.udp = append(s.udp, a, b)
+		s.mu.Unlock()
+		return a, b
+	}
+	return nil, nil
+}
+
 func (s *scriptServer) close() {
+	for _, pc := range s.udp {
+		pc.Close()
+	}
 	s.ln.Close()
 	<-s.done
 	s.mu.Lock()
